@@ -120,6 +120,22 @@ def edit_scenario():
     return st, pre, m, pm
 
 
+def algebra_edit_scenario():
+    """round 3: only the spelling algebra of one schema changes (the dictionary sources do not): the compiled schema and
+    the prisms are the only artefacts a redeploy rewrites, so whether a kill between the two is repaired depends on what
+    the PRISM FILE says about the schema it was built from - nothing else on disk differs from an up-to-date build."""
+    st = deplib.small_state()
+    pre = copy.deepcopy(st)
+    pre["schemas"]["t"]["algebra"] = ["abbrev/^([a-z]).+$/$1/"]
+    pre["schemas"]["u"]["algebra"] = ["xform/^b/p/", "derive/^j/q/"]
+    files = sorted(deplib.render(st))
+    pm = {f: 1500000000 + i for i, f in enumerate(files)}
+    m = dict(pm)
+    m["shared/t.schema.yaml"] = 1500001001
+    m["shared/u.schema.yaml"] = 1500001002
+    return st, pre, m, pm
+
+
 def model_correspondence(ctx, rmodel, facts, res, mism, stats):
     """compare the extracted model with what the real Load says at each hook kill point of a clean-start sweep"""
     rc, out, err = vlib.sh2([rmodel], stdin="T 0\nT 1\nT 2\n", timeout=60)
@@ -299,6 +315,11 @@ def run(ctx):
     st, pre, m, pm = edit_scenario()
     sweeps.append(("edit", deplib.sweep(T, scratch, "edit", st, pre_state=pre, mtimes=m, pre_mtimes=pm), st, pre))
     sweeps.append(("edit-sys", deplib.sweep(T, scratch, "edit-sys", st, pre_state=pre, mtimes=m, pre_mtimes=pm, mode="sys"), st, pre))
+    st2, pre2, m2, pm2 = algebra_edit_scenario()
+    sweeps.append(("edit-algebra", deplib.sweep(T, scratch, "edit-algebra", st2, pre_state=pre2, mtimes=m2, pre_mtimes=pm2), st2, pre2))
+    if thorough:
+        sweeps.append(("edit-algebra-sys", deplib.sweep(T, scratch, "edit-algebra-sys", st2, pre_state=pre2, mtimes=m2, pre_mtimes=pm2, mode="sys"),
+                       st2, pre2))
     # the same kills followed by the frontends' start-up deployment (RimeStartMaintenance(False) through the API in a
     # fresh process: it deploys only if DetectModifications finds a source newer than var/last_build_time)
     sweeps.append(("small-startup", deplib.sweep(T, scratch, "small-startup", small, redeploy="startup",
